@@ -284,7 +284,8 @@ func prioGenJSON(r *Rng, k configKind) prioJSONVal {
 		return prioJSONVal{strconv.FormatUint(v, 10), strconv.FormatUint(v, 10)}
 	case ckString:
 		s := Pick(r, []string{"", "a", "a=b", "héllo", "-b", "x y", "json\"quoted\"", "tab\t", "日本",
-			"$HOME", "pa$$w0rd-${x}", "bob$smith", "${PATH}", "100%", "%s %d", "line\n", "crlf\r\n", " lead", "trail ", "{\"a\":1}", "back\\slash", "~/x", "#c", "\u0000nul", "<&>"})
+			"$HOME", "pa$$w0rd-${x}", "bob$smith", "${PATH}", "100%", "%s %d", "line\n", "crlf\r\n", " lead", "trail ", "{\"a\":1}", "back\\slash", "~/x", "#c", "\u0000nul", "<&>",
+			"C:\\logs\\", "/var/*/logs/*/current", "// not a comment", "/* nor this */", "/etc/hostname"})
 		b, _ := json.Marshal(s)
 		return prioJSONVal{string(b), s}
 	case ckFloat64:
